@@ -1,12 +1,13 @@
 (* stdin line: <fuel> <main> <nfuns> fun*        (whitespace separated prefix tokens)
      fun   ::= fun <ntparams> <ncparams> ty* <nparams> (<x> ty)* ty(ret) expr(body)
      ty    ::= i8|i16|i32|i64|i128|isize|u8|u16|u32|u64|u128|usize|bool|void
-             | A <n> ty | S <id> <k> ty*k | V <n>
+             | A <n> ty | S <id> <k> ty*k | V <n> | E <id> <k> ty*k | O ty | R ty ty
      expr  ::= int ty <hexz> | true | false | unit | cp <n> | var <x> | bin <op> e e | cmp <op> e e
              | un <op> e | land e e | lor e e | cast ty e | if e e e | while <l> e e | loop <l> e
              | block <l|-> ty <n> e*n e | break <l> e | continue <l> | return e
              | call <f> <nt> ty* <nc> cval* <na> e* | arr ty <n> e* | index e e | struct ty <n> e*
-             | field e <k> | let <x> ty <0|1> e | assign e e | print e
+             | field e <k> | let <x> ty <0|1> e | assign e e | print e | defer e | inject ty <k> e
+             | switch ty e <x> <n> e*n (0 | 1 e) | isvar e <k> | unwrap e <k> | try e
      cval  ::= clit ty <hexz> | cref <n>
    stdout line: WT=<0|1> DONE <status> ev* | FAULT <kind> <fn> ev* | TRAP ev* | STUCK | FUEL
      ev ::= I<tyname>=<hexz> | B=<0|1>                                   (parsing / printing only) *)
@@ -43,6 +44,9 @@ let parse_prog (toks : string list) =
        | "A" -> let n = nat () in let u = ty () in TArr (n, u)
        | "S" -> let id = nat () in let k = num () in let fs = times k ty in TStruct (id, fs)
        | "V" -> TVar (nat ())
+       | "E" -> let id = nat () in let k = num () in let vs = times k ty in TEnum (id, vs)
+       | "O" -> let u = ty () in TOpt u
+       | "R" -> let e = ty () in let u = ty () in TErr (e, u)
        | _ -> failwith ("bad type " ^ t)) in
   let binop () = match adv () with
     | "add" -> OAdd | "sub" -> OSub | "mul" -> OMul | "div" -> ODiv | "rem" -> ORem
@@ -92,6 +96,16 @@ let parse_prog (toks : string list) =
     | "let" -> let x = nat () in let t = ty () in let m = adv () = "1" in let e = expr () in ELet (x, t, m, e)
     | "assign" -> let a = expr () in let b = expr () in EAssign (a, b)
     | "print" -> EPrint (expr ())
+    | "defer" -> EDefer (expr ())
+    | "inject" -> let t = ty () in let k = nat () in let e = expr () in EInject (t, k, e)
+    | "switch" ->
+      let t = ty () in let e = expr () in let x = nat () in
+      let n = num () in let arms = times n expr in
+      let d = (match adv () with "0" -> None | _ -> Some (expr ())) in
+      ESwitch (t, e, x, arms, d)
+    | "isvar" -> let e = expr () in let k = nat () in EIsVariant (e, k)
+    | "unwrap" -> let e = expr () in let k = nat () in EUnwrap (e, k)
+    | "try" -> ETry (expr ())
     | t -> failwith ("bad expr token " ^ t) in
   let func () =
     (if adv () <> "fun" then failwith "expected fun");
